@@ -364,7 +364,9 @@ theorem finv_exec (cfg : FCfg) (ops : List FOp) : ∀ s, FInv cfg s → FInv cfg
 history of client writes of the float parameter and of the index, reads, and driver-side assignments to the index
 **and to the float parameter itself** — with any outcome of the programmer's `read_/write_<idx>` bodies (a value,
 `None`, a SECoP error or any other exception) — the float parameter shows `valuedict[index]` after every operation,
-and every accepted write of the float parameter handed the driver an index whose value no other label is closer to. -/
+every accepted write of the float parameter handed the driver an index whose value no other label is closer to, and
+every driver-side assignment of a value `x` to the float parameter leaves an index whose value no other label is closer to
+`x` (the comparison with the value of the current index is exact: a value next to it, at any scale, re-selects). -/
 theorem floatenum_consistent (cfg : FCfg) (idx0 : Int) (hn : (cfg.vdict.map Prod.fst).Nodup)
     (h0 : validIdx cfg idx0 = true) (pre : List FOp) (op : FOp) :
     FloatEnumOk cfg.vdict (frecOf cfg (fexec cfg (finit cfg idx0) pre) op) := by
@@ -375,19 +377,31 @@ theorem floatenum_consistent (cfg : FCfg) (idx0 : Int) (hn : (cfg.vdict.map Prod
     | none => rw [h] at h0; simp at h0
     | some v => simp
   have hs := finv_exec cfg pre _ hinit
-  refine ⟨finv_step cfg _ op hs, ?_⟩
-  intro x hw hok
-  cases op with
-  | writeFloat y w =>
-    simp only [frecOf, Option.some.injEq] at hw
-    subst hw
-    obtain ⟨i, hi⟩ := writeFloat_ok_selected cfg y w _ (by simpa [frecOf, fstep1, fstep] using hok)
-    exact ⟨i, by simp [frecOf, hi], closest_spec cfg.vdict y i hn hi⟩
-  | writeIdx i w => simp [frecOf] at hw
-  | readIdx r => simp [frecOf] at hw
-  | readFloat => simp [frecOf] at hw
-  | driverAssignIdx j => simp [frecOf] at hw
-  | driverAssignFloat y => simp [frecOf] at hw
+  refine ⟨finv_step cfg _ op hs, ?_, ?_⟩
+  · intro x hw hok
+    cases op with
+    | writeFloat y w =>
+      simp only [frecOf, Option.some.injEq] at hw
+      subst hw
+      obtain ⟨i, hi⟩ := writeFloat_ok_selected cfg y w _ (by simpa [frecOf, fstep1, fstep] using hok)
+      exact ⟨i, by simp [frecOf, hi], closest_spec cfg.vdict y i hn hi⟩
+    | writeIdx i w => simp [frecOf] at hw
+    | readIdx r => simp [frecOf] at hw
+    | readFloat => simp [frecOf] at hw
+    | driverAssignIdx j => simp [frecOf] at hw
+    | driverAssignFloat y => simp [frecOf] at hw
+  · intro x ha _
+    cases op with
+    | driverAssignFloat y =>
+      simp only [frecOf, Option.some.injEq] at ha
+      subst ha
+      have hs' : FInv cfg { fexec cfg (finit cfg idx0) pre with evs := [], exc := none } := hs
+      exact assignFloat_selects cfg hn y _ hs'
+    | writeFloat y w => simp [frecOf] at ha
+    | writeIdx i w => simp [frecOf] at ha
+    | readIdx r => simp [frecOf] at ha
+    | readFloat => simp [frecOf] at ha
+    | driverAssignIdx j => simp [frecOf] at ha
 
 def fcfg : FCfg := { vdict := [(0, 4), (1, 1), (2, 16)], lo := 1, hi := 16, hasR := false, hasW := true }
 
@@ -425,10 +439,28 @@ the pair consistent; a driver-side index assignment is followed -/
 example : (frun fcfg (finit fcfg 0) [.writeFloat 9 .retNone, .writeFloat 2 (.ret 2), .driverAssignIdx 1]).map
     (fun s => (s.idx, s.value, s.ok)) = [(0, 4, true), (2, 16, true), (1, 1, true)] := by decide
 
-/-- the monitor rejects a value that does not belong to the index, and a write that did not select a closest label -/
-example : floatEnumOkB [(0, 4), (1, 1)] { write := none, ok := true, selected := none, idx := 0, value := 1 } = false := by
+/-- a value right next to the value of the current index (labels 1·2⁴⁰, 2·2⁴⁰, 4·2⁴⁰ scaled by 2⁴⁰; assigned: the value
+of index 0 plus one unit) is not "equal enough": the callback re-selects, here the same index, and the float parameter
+shows the exact value again; one unit more than the midpoint to the next label selects the next -/
+example : (frun { vdict := [(0, 1099511627776), (1, 2199023255552), (2, 4398046511104)], lo := 1099511627776,
+                  hi := 4398046511104, hasR := false, hasW := false }
+      { idx := 0, value := 1099511627776 } [.driverAssignFloat 1099511627777, .driverAssignFloat 1649267441665]).map
+    (fun s => (s.idx, s.value, s.evs)) =
+    [(0, 1099511627776, [.value 1099511627776, .idx 0, .value 1099511627776]),
+     (1, 2199023255552, [.value 2199023255552, .idx 1, .value 2199023255552])] := by decide
+
+/-- the monitor rejects a value that does not belong to the index, a write that did not select a closest label, and a
+driver-side assignment after which the float parameter keeps a value next to (but not) the value of the index -/
+example : floatEnumOkB [(0, 4), (1, 1)] { write := none, assign := none, ok := true, selected := none, idx := 0, value := 1 } = false := by
   decide
-example : floatEnumOkB [(0, 4), (1, 1), (2, 16)] { write := some 9, ok := true, selected := some 2, idx := 2, value := 16 } = false := by
+example : floatEnumOkB [(0, 4), (1, 1), (2, 16)]
+    { write := some 9, assign := none, ok := true, selected := some 2, idx := 2, value := 16 } = false := by
+  decide
+example : floatEnumOkB [(0, 1099511627776), (1, 2199023255552)]
+    { write := none, assign := some 1099511627777, ok := true, selected := none, idx := 0, value := 1099511627777 } = false := by
+  decide
+example : floatEnumOkB [(0, 4), (1, 1), (2, 16)]
+    { write := none, assign := some 15, ok := true, selected := none, idx := 0, value := 4 } = false := by
   decide
 
 end floatenum
@@ -438,18 +470,24 @@ end floatenum
 section limits
 open Frappy.ExtParams
 
+theorem checkLimits_reset (cfg : LCfg) (s : LSt) (x : Val) :
+    checkLimits cfg { s with evs := [], exc := none } x = checkLimits cfg s x := rfl
+
 /-- one operation from any state -/
-theorem limits_step (cfg : LCfg) (s : LSt) (op : LOp) : LimitsOk (lrecOf cfg s op) := by
+theorem limits_step (cfg : LCfg) (s : LSt) (op : LOp) : LimitsOk cfg.layers (lrecOf cfg s op) := by
   refine ⟨?_, ?_⟩
-  · intro x hw hok
+  · intro x hw hok happ
     cases op with
-    | write y w =>
+    | write y c w =>
       simp only [lrecOf, Option.some.injEq] at hw
       subst hw
-      simp only [lrecOf, lstep1, lstep] at hok ⊢
+      simp only [lrecOf, lstep1, lstep, checkLimits_reset] at hok happ ⊢
       by_cases hr : inRange cfg y = true
-      · by_cases hc : checkLimits cfg { s with evs := [], exc := none } y = true
-        · have hwithin : Within (limitsOf cfg s) y := within_of_check cfg { s with evs := [], exc := none } y hc
+      · by_cases hc : (runChecks (checkLimits cfg s y) c cfg.layers 0).ok = true
+        · have hlim : checkLimits cfg s y = true := by
+            obtain ⟨a, ha, hauto, hst⟩ := happ
+            exact runChecks_auto _ c cfg.layers 0 a hc ha hauto (fun j hj => by have := hst j hj; omega)
+          have hwithin : Within (limitsOf cfg s) y := within_of_check cfg s y hlim
           refine ⟨hwithin, ?_⟩
           intro he
           simp only [hr, hc, Bool.not_true, Bool.false_eq_true, if_false] at hok ⊢
@@ -464,7 +502,7 @@ theorem limits_step (cfg : LCfg) (s : LSt) (op : LOp) : LimitsOk (lrecOf cfg s o
               exact ⟨rfl, hwithin⟩
           · simp only [hW, Bool.false_eq_true, if_false]
             exact ⟨rfl, hwithin⟩
-        · simp [hr, hc, lfail] at hok
+        · simp [hr, hc] at hok
       · simp [hr, lfail] at hok
     | writeMin y => simp [lrecOf] at hw
     | writeMax y => simp [lrecOf] at hw
@@ -484,7 +522,7 @@ theorem limits_step (cfg : LCfg) (s : LSt) (op : LOp) : LimitsOk (lrecOf cfg s o
         have : decide (a ≤ b) = false := by simp only [decide_eq_false_iff_not]; exact Int.not_le.mpr hba
         simp [this]
       simp [lrecOf, lstep1, lstep, hv, lfail, limitsOf]
-    | write y w => simp [lrecOf] at hs
+    | write y c w => simp [lrecOf] at hs
     | writeMin y => simp [lrecOf] at hs
     | writeMax y => simp [lrecOf] at hs
     | driverAssign y => simp [lrecOf] at hs
@@ -492,30 +530,141 @@ theorem limits_step (cfg : LCfg) (s : LSt) (op : LOp) : LimitsOk (lrecOf cfg s o
     | driverAssignMax y => simp [lrecOf] at hs
     | driverAssignLimits a b => simp [lrecOf] at hs
 
-/-- **limits_enforced** — for every configuration of limit parameters (`<p>_min`, `<p>_max`, `<p>_limits`, any
-subset), every history of writes and driver-side assignments that moved the limits or the parameter, and
-every operation issued after it: an accepted write of `<p>` is inside every limit parameter current at that
-moment (and with a driver that takes the value over, `<p>` is inside its limits afterwards); a write of an
-inverted `<p>_limits` pair is refused and leaves the limits as they were. -/
+/-- **limits_enforced** — for every class layout (the limit parameters `<p>_min`, `<p>_max`, `<p>_limits`, any subset,
+declared in any classes of the hierarchy — the class of `<p>`, a subclass, a mixin — with programmer-written
+`check_<p>` methods in any classes, doing anything: return, raise, `return True`), every history of writes and driver-side
+assignments that moved the limits or the parameter, and every operation issued after it: an accepted write of `<p>` is
+inside every limit parameter current at that moment (and with a driver that takes the value over, `<p>` is inside its
+limits afterwards) whenever the automatic check applies (`AutoApplies`: some class that defines a limit parameter first has
+no `check_<p>` of its own, and no programmer's check before it in MRO order returned `True`) — in particular a `check_<p>`
+inherited from a class further down never switches the limits off; a write of an inverted `<p>_limits` pair is refused and
+leaves the limits as they were. -/
 theorem limits_enforced (cfg : LCfg) (v0 : Val) (pre : List LOp) (op : LOp) :
-    LimitsOk (lrecOf cfg (lexec cfg (linit cfg v0) pre) op) :=
+    LimitsOk cfg.layers (lrecOf cfg (lexec cfg (linit cfg v0) pre) op) :=
   limits_step cfg _ op
 
-def lcfg : LCfg := { lo := 0, hi := 100, hasMin := false, hasMax := true, hasLimits := true, hasW := false }
+/-- **limits_enforced_plain** — the common case spelled out: when no class of the hierarchy defines a `check_<p>` of
+its own, every accepted write is inside all limit parameters that exist (there is at least one), whatever the classes
+they are declared in. -/
+theorem limits_enforced_plain (cfg : LCfg) (v0 : Val) (pre : List LOp) (x : Val) (c : List CRes) (w : WRes Val)
+    (hown : ∀ l ∈ cfg.layers, l.ownCheck = false)
+    (hlim : (cfg.hasMin || cfg.hasMax || cfg.hasLimits) = true)
+    (hok : (lstep1 cfg (lexec cfg (linit cfg v0) pre) (.write x c w)).ok = true) :
+    Within (limitsOf cfg (lexec cfg (linit cfg v0) pre)) x := by
+  have hnone : ∀ (layers : List Layer) (i : Nat) (lim : Bool), (∀ l ∈ layers, l.ownCheck = false) →
+      (runChecks lim c layers i).stopAt = none := by
+    intro layers
+    induction layers with
+    | nil => intro i lim _; rfl
+    | cons l rest ih =>
+      intro i lim h
+      have hl := h l List.mem_cons_self
+      have hr := ih (i + 1) lim (fun l' hl' => h l' (List.mem_cons_of_mem _ hl'))
+      simp only [runChecks, hl, Bool.false_eq_true, if_false]
+      split
+      · split
+        · exact hr
+        · rfl
+      · exact hr
+  -- the class that declares one of the limit parameters last in MRO order carries the automatic check
+  have hex : ∀ (sel : Layer → Bool) (layers : List Layer), layers.any sel = true →
+      ∃ a, a < layers.length ∧ FirstDeclares layers sel a := by
+    intro sel layers
+    induction layers with
+    | nil => intro h; simp at h
+    | cons l rest ih =>
+      intro h
+      by_cases hrest : rest.any sel = true
+      · obtain ⟨a, ha, h1, h2⟩ := ih hrest
+        refine ⟨a + 1, by simp; omega, by simpa using h1, fun b hb hab => ?_⟩
+        cases b with
+        | zero => omega
+        | succ b' =>
+          have := h2 b' (by simp at hb; omega) (by omega)
+          simpa using this
+      · have hl : sel l = true := by
+          simp only [List.any_cons, Bool.or_eq_true] at h
+          rcases h with h | h
+          · exact h
+          · exact absurd h hrest
+        refine ⟨0, by simp, by simpa using hl, fun b hb hab => ?_⟩
+        cases b with
+        | zero => omega
+        | succ b' =>
+          have hf : rest.any sel = false := by simpa using hrest
+          have hm : rest.getD b' default ∈ rest := by
+            have hb' : b' < rest.length := by simp at hb; omega
+            have : rest.getD b' default = rest[b'] := by simp [List.getD_eq_getElem?_getD, hb']
+            rw [this]
+            exact List.getElem_mem hb'
+          have := (List.any_eq_false.1 hf) _ hm
+          simpa using this
+  have happ : AutoApplies cfg.layers (lrecOf cfg (lexec cfg (linit cfg v0) pre) (.write x c w)).stopAt := by
+    have hst : (lrecOf cfg (lexec cfg (linit cfg v0) pre) (.write x c w)).stopAt = none := hnone _ _ _ hown
+    rw [hst]
+    have hownAt : ∀ a, (cfg.layers.getD a default).ownCheck = false := by
+      intro a
+      by_cases ha : a < cfg.layers.length
+      · have : cfg.layers.getD a default = cfg.layers[a] := by simp [List.getD_eq_getElem?_getD, ha]
+        rw [this]; exact hown _ (List.getElem_mem ha)
+      · have : cfg.layers.getD a default = default := by
+          simp [List.getD_eq_getElem?_getD, List.getElem?_eq_none (Nat.le_of_not_lt ha)]
+        rw [this]; rfl
+    simp only [Bool.or_eq_true] at hlim
+    rcases hlim with (hlim | hlim) | hlim
+    · obtain ⟨a, ha, hf⟩ := hex (·.declMin) cfg.layers hlim
+      exact ⟨a, ha, ⟨hownAt a, Or.inl hf⟩, fun j hj => by cases hj⟩
+    · obtain ⟨a, ha, hf⟩ := hex (·.declMax) cfg.layers hlim
+      exact ⟨a, ha, ⟨hownAt a, Or.inr (Or.inl hf)⟩, fun j hj => by cases hj⟩
+    · obtain ⟨a, ha, hf⟩ := hex (·.declLimits) cfg.layers hlim
+      exact ⟨a, ha, ⟨hownAt a, Or.inr (Or.inr hf)⟩, fun j hj => by cases hj⟩
+  exact ((limits_step cfg _ (.write x c w)).1 x rfl hok happ).1
+
+/-- `_max` and `_limits` declared in a subclass of the class of `<p>` -/
+def lcfg : LCfg := { lo := 0, hi := 100, layers := [{ declMax := true, declLimits := true }, {}], hasW := false }
 
 /-- non-vacuity: limits moved at run time, a write inside `_limits` but above `_max` refused, an inverted pair refused -/
-example : (lrun lcfg (linit lcfg 3) [.writeLimits 10 50, .writeMax 40, .write 45 .retNone, .write 30 .retNone,
-      .writeLimits 5 1, .write 5 .retNone]).map (fun s => (s.value, s.max, s.limits, s.ok)) =
+example : (lrun lcfg (linit lcfg 3) [.writeLimits 10 50, .writeMax 40, .write 45 [] .retNone, .write 30 [] .retNone,
+      .writeLimits 5 1, .write 5 [] .retNone]).map (fun s => (s.value, s.max, s.limits, s.ok)) =
     [(3, 100, (10, 50), true), (3, 40, (10, 50), true), (3, 40, (10, 50), false), (30, 40, (10, 50), true),
      (30, 40, (10, 50), false), (30, 40, (10, 50), false)] := by decide
 
-/-- the monitor rejects what the pinned code did: an inverted pair accepted; `_max` ignored next to `_limits` -/
-example : limitsOkB {
-    write := none, echo := false, setLimits := some (5, 1), ok := true,
+example : (∀ l ∈ lcfg.layers, l.ownCheck = false) ∧ (lcfg.hasMin || lcfg.hasMax || lcfg.hasLimits) = true := by decide
+
+/-- the limits are declared in a subclass (position 1) of a driver class with a `check_<p>` of its own (position 2, a
+hardware constraint), the module class itself (position 0) has another one -/
+def lcfgInh : LCfg :=
+  { lo := 0, hi := 100, layers := [{ ownCheck := true }, { declMin := true, declMax := true }, { ownCheck := true }], hasW := false }
+
+/-- non-vacuity: the inherited check method is applied *in addition*: a value above `_max` is refused although both
+programmer's checks let it pass; a value inside is refused when the inherited check raises; the automatic check applies
+unless the check method of the module class (before it in MRO order) returns `True` -/
+example : (lrun lcfgInh (linit lcfgInh 3) [.writeMax 40, .write 45 [.pass, .pass, .pass] .retNone,
+      .write 30 [.pass, .pass, .fail .secop] .retNone, .write 30 [] .retNone, .write 45 [.stop] .retNone,
+      .write 46 [.pass, .pass, .stop] .retNone]).map (fun s => (s.value, s.max, s.ok, s.exc)) =
+    [(3, 40, true, none), (3, 40, false, none), (3, 40, false, some .secop), (30, 40, true, none), (45, 40, true, none),
+     (45, 40, false, none)] ∧
+    AutoApplies lcfgInh.layers none ∧ AutoApplies lcfgInh.layers (some 2) ∧ ¬ AutoApplies lcfgInh.layers (some 0) := by decide
+
+/-- … and when the class that declares the limits brings its own `check_<p>` there is no automatic check at all -/
+example : ¬ AutoApplies [{ declMin := true, ownCheck := true }, {}] none ∧
+    AutoApplies [{ declMin := true, ownCheck := true }, { declMax := true }] none := by decide
+
+/-- the monitor rejects what the pinned code did: an inverted pair accepted; `_max` ignored next to `_limits`; and a write
+above `_max` accepted because the class declaring `_max` inherits a `check_<p>` -/
+example : limitsOkB [{ declLimits := true }] {
+    write := none, stopAt := none, echo := false, setLimits := some (5, 1), ok := true,
     before := ⟨none, none, some (0, 100)⟩, after := ⟨none, none, some (5, 1)⟩, value := 3 } = false := by decide
-example : limitsOkB {
-    write := some 45, echo := true, setLimits := none, ok := true,
+example : limitsOkB [{ declMax := true, declLimits := true }] {
+    write := some 45, stopAt := none, echo := true, setLimits := none, ok := true,
     before := ⟨none, some 40, some (10, 50)⟩, after := ⟨none, some 40, some (10, 50)⟩, value := 45 } = false := by decide
+example : limitsOkB [{ declMax := true }, { ownCheck := true }] {
+    write := some 45, stopAt := none, echo := true, setLimits := none, ok := true,
+    before := ⟨none, some 40, none⟩, after := ⟨none, some 40, none⟩, value := 45 } = false := by decide
+/-- … but accepts it when the check method of a class before the automatic one returned `True` -/
+example : limitsOkB [{ ownCheck := true }, { declMax := true }] {
+    write := some 45, stopAt := some 0, echo := true, setLimits := none, ok := true,
+    before := ⟨none, some 40, none⟩, after := ⟨none, some 40, none⟩, value := 45 } = true := by decide
 
 end limits
 
